@@ -347,6 +347,17 @@ class OrderedMultiDict(dict, MutableMappingSequence):
     def copy(self):
         return type(self)(self)
 
+    def __reduce__(self):
+        # The default reduction of a dict subclass replays the dict items
+        # through __setitem__ (losing duplicate keys) and shares or drops
+        # the private item list.  Rebuild from the list of pairs instead.
+        state = {
+            k: v
+            for k, v in self.__dict__.items()
+            if k != "_OrderedMultiDict__items"
+        }
+        return type(self), (list(self.__items),), state or None
+
     def insert(self, index: int, *args) -> None:
         """Inserts at the index given by *index*.
 
